@@ -450,13 +450,11 @@ impl<'a, R: Clone> AsyncGlobalCache<'a, R> {
 
         let mut order = self.order.lock();
 
-        // Check if another task already inserted this key while we were computing
-        if self.is_already_key_inserted(key, &mut order) {
-            return;
+        // A store replaces whatever is cached under this key (same as the sync caches)
+        if !self.dequeue_existing_key(key, &mut order) {
+            // Handle entry-count limits (a replacement adds no entry: nothing to evict)
+            self.handle_entry_limit_eviction(&mut order);
         }
-
-        // Handle entry-count limits
-        self.handle_entry_limit_eviction(&mut order);
 
         // Add the new entry to the order queue
         order.push_back(key.to_string());
@@ -465,47 +463,30 @@ impl<'a, R: Clone> AsyncGlobalCache<'a, R> {
         self.cache.insert(key.to_string(), (value, timestamp, 0));
     }
 
-    /// Checks if a key is already present in the cache and updates its position in the eviction order
-    /// if the eviction policy is Least Recently Used (LRU) or Adaptive Replacement Cache (ARC).
+    /// Prepares the replacement of the entry currently stored under `key`, if there is one:
+    /// the key leaves its position in the eviction order so that the store that follows makes
+    /// it the youngest entry, while the old value stays readable until `DashMap::insert`
+    /// swaps in the new one (a concurrent lookup never sees the key missing).
+    ///
+    /// This also covers two tasks that computed the same key concurrently: the later store wins.
     ///
     /// # Parameters
-    /// - `key`: A reference to the key being checked as a `&str`.
-    /// - `order`: A mutable reference to a locked `VecDeque<String>` wrapped in a `MutexGuard`.
-    ///    This represents the ordered list of keys, used to determine eviction order.
+    /// - `key`: The key about to be stored.
+    /// - `order`: The locked eviction order queue.
     ///
     /// # Returns
-    /// - `true` if the key is already present in the cache and was processed for eviction policy.
-    /// - `false` if the key was not found in the cache.
-    ///
-    /// # Behavior
-    /// 1. If the key exists in the cache:
-    ///    - If the eviction policy is `LRU` or `ARC`, the key's position in the eviction list (`order`)
-    ///      is updated to reflect that it was recently accessed by removing the old position and appending
-    ///      the key to the back of the `VecDeque`.
-    ///    - The function returns `true`, indicating the key is already in the cache.
-    /// 2. If the key does not exist in the cache:
-    ///    - The function returns `false`, allowing the caller to handle the key insertion.
-    ///
-    /// # Eviction Policies
-    /// - `LRU` (Least Recently Used): Keys recently accessed should stay in the cache,
-    ///   and their access order is updated.
-    /// - `ARC` (Adaptive Replacement Cache): Performs similarly to LRU but may enhance
-    ///   replacement policies in specific cases.
-    fn is_already_key_inserted(
+    /// `true` if the key is currently cached (the store replaces it), `false` otherwise.
+    fn dequeue_existing_key(
         &self,
         key: &str,
         order: &mut MutexGuard<RawMutex, VecDeque<String>>,
     ) -> bool {
         if self.cache.contains_key(key) {
-            // Key already exists, just update the order if LRU or ARC
-            if self.policy == EvictionPolicy::LRU || self.policy == EvictionPolicy::ARC {
-                order.retain(|k| k != key);
-                order.push_back(key.to_string());
-            }
-            // Don't insert again
-            return true;
+            order.retain(|k| k != key);
+            true
+        } else {
+            false
         }
-        false
     }
 
     /// Finds the key with minimum frequency for LFU eviction.
@@ -807,25 +788,30 @@ impl<'a, R: Clone + crate::MemoryEstimator> AsyncGlobalCache<'a, R> {
 
         let mut order = self.order.lock();
 
-        // Check if another task already inserted this key while we were computing
-        if self.is_already_key_inserted(key, &mut order) {
-            return;
+        // Safety check: if the value itself is larger than max_mem it is not cached at all
+        // (this respects the memory limit and avoids an endless eviction loop); whatever is
+        // cached under this key stays as it is
+        if let Some(max_mem) = self.max_memory {
+            if value.estimate_memory() > max_mem {
+                return;
+            }
         }
+
+        // A store replaces whatever is cached under this key (same as the sync caches)
+        let replacing = self.dequeue_existing_key(key, &mut order);
 
         // Check memory limit first (if specified)
         if let Some(max_mem) = self.max_memory {
             let value_size = value.estimate_memory();
-
-            // Safety check: if the value itself is larger than max_mem,
-            // we need to handle it to avoid infinite loop
-            if value_size > max_mem {
-                // Value is too large to fit in cache even when empty
-                // We have two options:
-                // 1. Don't cache it at all (skip insertion)
-                // 2. Clear all entries and cache it anyway
-                // We choose option 1 to respect the memory limit
-                return;
-            }
+            // The value being replaced does not count against the memory limit
+            let replaced_size = if replacing {
+                self.cache
+                    .get(key)
+                    .map(|entry| entry.value().0.estimate_memory())
+                    .unwrap_or(0)
+            } else {
+                0
+            };
 
             loop {
                 let current_mem: usize = self
@@ -834,7 +820,7 @@ impl<'a, R: Clone + crate::MemoryEstimator> AsyncGlobalCache<'a, R> {
                     .map(|entry| entry.value().0.estimate_memory())
                     .sum();
 
-                if current_mem + value_size <= max_mem {
+                if current_mem - replaced_size + value_size <= max_mem {
                     break;
                 }
 
@@ -897,8 +883,10 @@ impl<'a, R: Clone + crate::MemoryEstimator> AsyncGlobalCache<'a, R> {
             }
         }
 
-        // Handle entry-count limits (reuse the same method)
-        self.handle_entry_limit_eviction(&mut order);
+        // Handle entry-count limits (reuse the same method); a replacement adds no entry
+        if !replacing {
+            self.handle_entry_limit_eviction(&mut order);
+        }
 
         // Add the new entry to the order queue
         order.push_back(key.to_string());
